@@ -252,7 +252,10 @@ def translate_type(t, targets=("raw",), decl_first=False):
     res = {"funcs": [], "errors": []}
     if decl_first:      # a user may ask for the cffi declarations before generating sources
         try:
-            cls._gen_c_decl()
+            if decl_first == "cpu":
+                cls._gen_c_decl({})       # as ContextCpu.build_kernels asks for the cffi declarations (plain conf)
+            else:
+                cls._gen_c_decl()
         except BaseException as e:  # noqa
             res["errors"].append({"path": [], "exc": X.exc_class(e), "msg": "_gen_c_decl: " + repr(e)[:200]})
     conf = default_conf
